@@ -814,6 +814,48 @@ class CodeGen:
         self.emit("__leave__(%d)" % rid)
         self.step({"kind": "after_region", "rid": rid})
 
+    def st_retry_while(self, s):
+        """One oblivious loop (one source line, one BranchingValues object) run several times by the program; some
+        runs are abandoned by an exception (a step that the merge refuses, a plain bug in the body) which the program
+        catches; the loop is closed in a finally on every path.  Results of the completed runs go to ext.rw<k>."""
+        maxit = s["maxit"]
+        att = s["attempts"]
+        if self.mode == "native":
+            self.emit("def _rw(start, n, step):")
+            self.emit("    acc = start; i = 0")
+            self.emit("    while i < n and i < %d:" % maxit)
+            self.emit("        acc = acc + step; i += 1")
+            self.emit("    return acc")
+            for k, a in enumerate(att):
+                if not a.get("poison") or (a["poison"] == "bug" and a.get("bug", 0) > maxit):
+                    self.emit("__ext__('rw%d', _rw(%d, %s, %d))" % (k, a["start"], self.bx(a["n"]), a["step"]))
+            self.emit("__ext__('rw_open', 0)")
+            self.step({"kind": "retry_while"})
+            return
+        self.emit("def _rw(_, start, n, step, bug):")
+        self.emit("    _.acc = start")
+        self.emit("    i = 0")
+        self.emit("    try:")
+        self.emit("        while _while(n > i) and i < %d:" % maxit)
+        self.emit("            _.acc = _.acc + step")
+        self.emit("            if bug and i == bug - 1: {}['missing']")
+        self.emit("            i += 1")
+        self.emit("    finally:")
+        self.emit("        _endwhile()")
+        self.emit("    return _.acc")
+        self.emit("_rwb = BranchingValues()")
+        for k, a in enumerate(att):
+            step = "0.5" if a.get("poison") == "float" else "%d" % a["step"]
+            bug = a.get("bug", 0) if a.get("poison") == "bug" else 0
+            site = self.new_site({"kind": "caught", "stmt": "retry_while", "desc": {"op": "retry_while"}})
+            self.emit("try:")
+            self.emit("    __ext__('rw%d', _rw(_rwb, %d, %s, %s, %d))" % (k, a["start"], self.bx(a["n"]), step, bug))
+            self.emit("except __CAUGHT__ as __e:")
+            self.emit("    __caught__(%d, __e, ())" % site)
+        self.emit("__ext__('rw_open', len(_rwb.stack))")
+        self.emit("_rwb.stack.clear()")
+        self.step({"kind": "retry_while"})
+
     def st_def_helper(self, s):
         if self.mode == "native":
             raise NotImplementedError("helpers have no native twin")
@@ -1210,6 +1252,9 @@ class CodeGen:
         self.emit("_l = __flat__([%s])" % params)
         if s.get("log"):
             self.emit("_log = 'call %r %s' % (_l, [str(_x) for _x in _l])")      # a log line about the arguments
+        if s.get("raises"):
+            # the wrapped function itself fails (after its arguments have been converted); the program catches it
+            self.emit("raise KeyError('refused by the function')")
         self.emit("return %s" % self.struct_src(s["ret"], self.snark_leaf_ret))
         self.ind -= 1
         args = ", ".join(self.struct_src(a, self.snark_leaf_arg) for a in s["args"])
@@ -1374,6 +1419,13 @@ class CodeGen:
         n = self.rid
         def body():
             self.emit("_pk%d = %s" % (n, self.schema_src(s["schema"])))
+            if s.get("first") is not None:
+                # history: the same packer object was first given another record, which it may have refused half-way
+                # (an out-of-range element that is not the first one); the program caught that and goes on
+                self.emit("try:")
+                self.emit("    _pk%d.pack(%s)" % (n, self.value_src(s["first"])))
+                self.emit("except __CAUGHT__ as __e:")
+                self.emit("    pass")
             self.emit("_pv%d = %s" % (n, self.value_src(s["value"])))
             self.emit("_pb%d = _pk%d.pack(_pv%d)" % (n, n, n))
             self.emit("__packinfo__(%d, _pk%d, _pb%d)" % (n, n, n))
